@@ -13,6 +13,9 @@ def run(vc, tier):
     q = tier == 'quick'
     r = c.run_vx_unit('c07-histories', SRC, 'asan', ['--depth', 2 if q else 3, '--D', 1 if q else 2, '--nshapes', 3 if q else 6, '--exec-timeout', 60000], share=0.6)
     r2 = c.run_vx_unit('c07-opt', SRC, 'asan', ['--mode', 1, '--ninputs', 40 if q else 200, '--D', 0, '--exec-timeout', 60000], share=0.9)
+    # the same optimal-parser unit without sanitizers: the allocator hands out different (recycled, not pattern-filled) memory there, which is exactly what
+    # "does not depend on heap vs reused memory" is about
+    c.run_vx_unit('c07-opt-plain', SRC, 'plain', ['--mode', 1, '--ninputs', 40 if q else 200, '--D', 0, '--exec-timeout', 60000], share=0.3)
     r4 = c.run_vx_unit('c07-big', SRC, 'asan', ['--mode', 3, '--D', 0, '--exec-timeout', 60000], share=0.4)
     r3 = c.run_vx_unit('c07-mt', SRC, 'sched-asan', ['--mode', 2, '--D', 0, '--exec-timeout', 60000], extra_flags='-DVERIF_C07_MT', engine_srcs=['engine/vsched.c'], share=0.9)
     c.states = r.done.get('outcomes', 0) + r2.done.get('outcomes', 0) + r3.done.get('outcomes', 0) + r4.done.get('outcomes', 0); c.transitions = r.stats.get('histories_run', 0) + r2.stats.get('histories_run', 0) + r3.stats.get('histories_run', 0); c.traces_validated = c.transitions
